@@ -646,3 +646,43 @@ def oneshot_request(u: U):
     if has_cookies:
         u.check("C17.oneshot.cookies_are_per_request", calls[0][2].get("cookies") is ck,
                 "they are handed to _request as per-request cookies", known=[("F17a", True)])
+
+
+@unit("C17", "headers.working_copy", functions=[f"{MOD}:ClientSession._prepare_headers"])
+def headers_working_copy(u: U):
+    """_prepare_headers hands _request a WORKING COPY: _request rewrites it between hops (Authorization taken from URL
+    credentials or netrc, the strip on a change of origin, Host / Proxy-Authorization added by the request object), so it
+    must never be the session's default-header mapping itself, nor the caller's mapping - else the credentials of one
+    redirect chain stay in session.headers and go out with every later request of the session, to any origin"""
+    from multidict import CIMultiDict, CIMultiDictProxy
+
+    from pyvc.runtime import LoopSpec
+
+    defaults = CIMultiDict({"User-Agent": "ua"} if u.choose(2, "session_has_default_headers") else {})
+    snapshot = list(defaults.items())
+    how = ("none", "empty_dict", "dict", "cimultidict", "proxy")[u.choose(5, "per_request_headers")]
+    own = CIMultiDict({"X-Req": "1", "user-agent": "mine"})
+    arg = {"none": None, "empty_dict": {}, "dict": {"X-Req": "1", "user-agent": "mine"}, "cimultidict": own,
+           "proxy": CIMultiDictProxy(own)}[how]
+    s = u.obj("ClientSession", {"_default_headers": defaults}, {}, shared=False)
+    f = u.load(MOD, "ClientSession._prepare_headers")
+    u.default_loop_spec = LoopSpec(unroll=True, bound=4)
+    out = u.call(f, s, arg)
+    u.check("C17.headers.prepare.total", out.ok, repr(out))
+    if not out.ok:
+        return
+    res = out.value
+    u.check("C17.headers.working_copy_is_not_the_session_defaults", res is not defaults and res is not own,
+            "the mapping _request goes on to mutate is neither session.headers nor the caller's own mapping",
+            witness={"per_request_headers": how})
+    want = dict(snapshot)
+    if how in ("dict", "cimultidict", "proxy"):
+        want = {**{k.lower(): v for k, v in snapshot}, "x-req": "1", "user-agent": "mine"}
+    u.check("C17.headers.defaults_then_overrides", {k.lower(): v for k, v in res.items()} == {k.lower(): v for k, v in want.items()},
+            "session defaults, overridden by the per-request headers")
+    # what _request does next, in miniature: the defaults must not see it
+    res["Authorization"] = "Basic c2VjcmV0"
+    res.popall("User-Agent", None)
+    u.check("C17.headers.session_defaults_untouched_by_a_request", list(defaults.items()) == snapshot
+            and "Authorization" not in own,
+            "credentials a redirect chain picks up never end in the session's default headers (or the caller's mapping)")
